@@ -2,7 +2,7 @@
    access sites, what a common lock guarantees, resource accounting.
    Statements only; proofs live in Conc/*.v. *)
 From Coq Require Import String List NArith Bool Permutation.
-From SeataV Require Import Conc.LockSet Conc.LockSetProofs Conc.Accounting Conc.AccountingProofs Conc.LockSetTable.
+From SeataV Require Import Conc.LockSet Conc.LockSetProofs Conc.LockSetListing Conc.Accounting Conc.AccountingProofs Conc.LockSetTable.
 Import ListNotations.
 Open Scope string_scope.
 
